@@ -57,6 +57,7 @@ func checkC11(c *Ctx, r *Report) {
 	}
 	r.SawFunc(R)
 	r.Floor("logging entry points", len(ro.EntryPoints), 15)
+	entryDecisions(r, ro, c.checkEntrySemantics(r, ro, "C11.entry-values"), "C11")
 	lc := &linCtx{c: c, fn: R, vars: map[string]ssa.Value{}}
 
 	// look-ups inside the recorder
